@@ -75,6 +75,7 @@ _DIMNAME = {"length": "L", "mass": "M", "time": "T", "current": "I", "temperatur
 
 def project_dim(dimension):
     """Real Dimension -> exponent vector (list of [n, d] in BASE order); None if outside the 8 bases."""
+    import sympy as sp
     from sympy.physics.units.systems.si import dimsys_SI
     try:
         deps = dimsys_SI.get_dimensional_dependencies(dimension)
@@ -86,8 +87,9 @@ def project_dim(dimension):
         if name is None:
             return None
         try:
-            vec[name] = Fraction(int(e.p), int(e.q))
-        except AttributeError:
+            r = sp.Rational(e)
+            vec[name] = Fraction(int(r.p), int(r.q))
+        except (TypeError, ValueError, AttributeError):
             return None
     return [[vec[b].numerator, vec[b].denominator] for b in BASE]
 
